@@ -108,11 +108,34 @@ def one_batch(ctx, items, stats):
             stats["spec_agree"] += 1
 
 
+def refuse_corpus():
+    """graphs outside the ms-expressible class that resemble expressible ones as closely as possible: a LINEAR
+    epoch with the sizes and the time span of an exponential epoch of another deme (both visiting orders), and
+    of an earlier epoch of the same deme"""
+    def deme(name, fn, start=None, anc=None):
+        d = {"name": name, "epochs": [{"end_time": 80, "start_size": 100}, {"end_time": 40, "end_size": 200, "size_function": fn},
+                                      {"end_time": 0, "end_size": 200}]}
+        if anc:
+            d.update(ancestors=[anc], start_time=start)
+        return d
+    docs = []
+    for fa, fb in (("exponential", "linear"), ("linear", "exponential")):
+        docs.append({"time_units": "generations", "demes": [deme("a", fa), deme("b", fb)]})
+        docs.append({"time_units": "years", "generation_time": 2, "demes": [deme("a", fa), deme("b", fb)],
+                     "migrations": [{"demes": ["a", "b"], "rate": 0.125}]})
+    docs.append({"time_units": "generations", "demes": [{"name": "a", "epochs": [
+        {"end_time": 80, "start_size": 100}, {"end_time": 60, "end_size": 200, "size_function": "exponential"},
+        {"end_time": 40, "end_size": 100, "size_function": "exponential"}, {"end_time": 20, "end_size": 200, "size_function": "linear"},
+        {"end_time": 0, "end_size": 200}]}]})
+    return [(d, demes.Graph.fromdict(d), Fraction(1), None) for d in docs]
+
+
 def run(ctx):
     stats = Counter()
     thorough = ctx.tier != "quick"
     target = 1200 if not thorough else 6000
     done = 0
+    one_batch(ctx, refuse_corpus(), stats)
     while done < target and ctx.time_left() > (8 if not thorough else 40):
         items = []
         while len(items) < 120:
